@@ -319,3 +319,14 @@ impl ReadCursor {
         }
     }
 }
+
+impl Drop for ReadCursor {
+    fn drop(&mut self) {
+        // The currently published group is never handed to the memory manager
+        unsafe {
+            let current_group = self.readers.load(Ordering::Relaxed);
+            ptr::read(current_group);
+            alloc::deallocate(current_group, 1);
+        }
+    }
+}
